@@ -123,7 +123,8 @@ RequestOut(S, m, kind, a, h) ==
 \* The client found its dynamic address in use: the lease is dropped.  The
 \* statement says nothing more; the server may in the same step hand the
 \* client another lease (any admissible address, offered or acknowledged,
-\* with the old host name, the name derived from the new address, or none).  Reservations are not affected.
+\* with the old host name, the name derived from the new address, or none).
+\* Reservations are not affected.
 DeclineOut(S, m, a) ==
     LET mine == {l \in Of(S, m) : l.ip = a /\ ~l.st} IN
     IF mine = {} THEN {Outc(S, AnyR)}
